@@ -238,7 +238,8 @@ func lower(b []byte) []byte {
 // meaningful and (2) contain angle brackets that we'd like to avoid escaping
 // unless we have to.
 //
-// "We have to" includes the '&' byte, since that introduces other escapes.
+// "We have to" includes the '&' byte, since that introduces other escapes,
+// and the '\r' byte, since the tokenizer would otherwise normalize it to '\n'.
 //
 // It also includes those bytes (not including EOF) that would otherwise end
 // the comment. Per the summary table at the bottom of comment_test.go, this is
@@ -281,6 +282,11 @@ func escapeComment(w writer, s string) error {
 			}
 			escaped = "&gt;"
 
+		case '\r':
+			// As in func escape: a raw CR would be normalized to LF by the
+			// tokenizer, so the comment would not round-trip.
+			escaped = "&#13;"
+
 		default:
 			continue
 		}
@@ -306,7 +312,7 @@ func escapeComment(w writer, s string) error {
 
 // escapeCommentString is to EscapeString as escapeComment is to escape.
 func escapeCommentString(s string) string {
-	if strings.IndexAny(s, "&>") == -1 {
+	if strings.IndexAny(s, "&>\r") == -1 {
 		return s
 	}
 	var buf bytes.Buffer
